@@ -227,6 +227,55 @@ class GeneratorResult(list):
     """eagerly collected yields of an interpreted generator function"""
 
 
+class LazyGen:
+    """an interpreted generator run in its own thread with strict hand-off, so that the consumer's statements
+    interleave with the generator body exactly as in python (Job.evaluate <-> Step.generate)"""
+
+    def __init__(self, run):
+        import queue
+        import threading
+
+        self._run = run
+        self._out = queue.Queue(1)
+        self._in = queue.Queue(1)
+        self._thread = None
+        self._threading = threading
+        self.done = False
+
+    def _body(self):
+        try:
+            self._run(self)
+            self._out.put(("stop", None))
+        except BaseException as e:  # noqa
+            self._out.put(("raise", e))
+
+    def emit(self, value):
+        self._out.put(("yield", value))
+        self._in.get()
+
+    def append(self, value):
+        self.emit(value)
+
+    def __iter__(self):
+        return self
+
+    def __next__(self):
+        if self.done:
+            raise StopIteration
+        if self._thread is None:
+            self._thread = self._threading.Thread(target=self._body, daemon=True)
+            self._thread.start()
+        else:
+            self._in.put("go")
+        kind, val = self._out.get()
+        if kind == "yield":
+            return val
+        self.done = True
+        if kind == "raise":
+            raise val
+        raise StopIteration
+
+
 _INTERP = [None]
 
 
@@ -357,6 +406,7 @@ class Interp:
         self.steps = 0
         self.max_steps = int(os.environ.get("FVERIF_MAX_STEPS", "50000000"))
         self.literal_hook = None  # callable(interp, node, float) -> value | None
+        self.lazy_generators = False  # True: generator functions run lazily (threads with hand-off)
         self.call_hooks = {}  # (module name, qualname) -> python callable(interp, fn, args, kwargs)
         _INTERP[0] = self
 
@@ -415,7 +465,9 @@ class Interp:
         while isinstance(v, LazyRef):
             m = self.module(v.modname)
             if isinstance(m, ModuleValue):
-                if v.name in m.env.d:
+                nv0 = m.env.d.get(v.name)
+                self_ref = isinstance(nv0, LazyRef) and nv0.modname == v.modname and nv0.name == v.name
+                if v.name in m.env.d and not self_ref:
                     nv = m.env.d[v.name]
                     if isinstance(nv, LazyRef):
                         nv = self._resolve_lazy(nv)
@@ -826,6 +878,14 @@ class Interp:
             if getattr(fn, "_is_gen", None) is None:
                 fn._is_gen = _has_yield(node)
             if fn._is_gen:
+                if self.lazy_generators:
+                    def run(gen, env=env, node=node, fn=fn):
+                        env.d["$yields"] = gen
+                        try:
+                            self.exec_block(node.body, env, fn.module)
+                        except _Return:
+                            pass
+                    return LazyGen(run)
                 acc = GeneratorResult()
                 env.d["$yields"] = acc
                 try:
@@ -879,8 +939,23 @@ class Interp:
         if st.value is not None:
             self.assign(st.target, self.eval(st.value, env), env)
 
+    def _inplace(self, op, cur, val):
+        """python's augmented assignment protocol for interpreted instances: __iop__ first, then __op__"""
+        if isinstance(cur, Instance):
+            nm = self._DUNDER.get(op)
+            f, _ = cur.cls.find("__i%s__" % nm)
+            if f is not None:
+                r = self.call(BoundMethod(cur, f), [val], {})
+                if r is not NotImplemented:
+                    return r
+        return self.binop(op, cur, val)
+
     def s_AugAssign(self, st, env, module):
         t = st.target
+        if isinstance(t, ast.Name) and isinstance(self.lookup(t.id, env), Instance):
+            cur = self.lookup(t.id, env)
+            self.assign(t, self._inplace(type(st.op), cur, self.eval(st.value, env)), env)
+            return
         if isinstance(t, ast.Name):
             cur = self.lookup(t.id, env)
             val = self.eval(st.value, env)
@@ -910,13 +985,13 @@ class Interp:
                     cur[...] = res
                     return
                 raise self.undecided("augmented attribute assignment changing shape")
-            self.setattr(obj, t.attr, self.binop(type(st.op), cur, val))
+            self.setattr(obj, t.attr, self._inplace(type(st.op), cur, val))
         elif isinstance(t, ast.Subscript):
             obj = self.eval(t.value, env)
             idx = self.eval_index(t.slice, env)
             cur = self.getitem(obj, idx)
             val = self.eval(st.value, env)
-            self.setitem(obj, idx, self.binop(type(st.op), cur, val))
+            self.setitem(obj, idx, self._inplace(type(st.op), cur, val))
         else:
             raise self.undecided("augmented assignment target")
 
@@ -964,7 +1039,11 @@ class Interp:
             self.exec_block(st.orelse, env, module)
 
     def s_For(self, st, env, module):
-        it = self.iterate(self.eval(st.iter, env))
+        src = self.eval(st.iter, env)
+        if isinstance(src, (LazyGen, enumerate, zip)) and self.lazy_generators:
+            it = src  # lazy: the body interleaves with the generator
+        else:
+            it = self.iterate(src)
         broke = False
         for v in it:
             self.assign(st.target, v, env)
@@ -1553,6 +1632,12 @@ class Interp:
             raise self.undecided("comparison of instances")
         f = {ast.Eq: operator.eq, ast.NotEq: operator.ne, ast.Lt: operator.lt, ast.LtE: operator.le,
              ast.Gt: operator.gt, ast.GtE: operator.ge}[op]
+        if isinstance(a, npmodel.Infinity) or isinstance(b, npmodel.Infinity):
+            if isinstance(a, npmodel.Infinity) and isinstance(b, npmodel.Infinity):
+                return f(a.sign, b.sign)
+            if isinstance(a, npmodel.Infinity):
+                return f(a.sign, 0)
+            return f(0, b.sign)
         if isinstance(a, np.ndarray) or isinstance(b, np.ndarray):
             return npmodel.array_compare(self, f, a, b)
         if isinstance(a, (Opaque, OpaqueModule)) or isinstance(b, (Opaque, OpaqueModule)):
